@@ -238,13 +238,19 @@ func runC10(c *Ctx) {
 	checkMapWriters("O1", "map[QueueID]*QueueInfo", "pkg/scheduler/api/queue_info.QueueInfo", map[string]string{
 		"(*pkg/scheduler/cache/cluster_info.ClusterInfo).snapshotQueues": "snapshot construction, sanitised by UpdateQueueHierarchy before publication",
 	})
-	checkMapWriters("O1", "map[QueueID]*QueueAttributes", pkgResShare+".QueueAttributes", map[string]string{
+	attrWriters := map[string]string{
 		"(*pkg/scheduler/plugins/proportion.proportionPlugin).createQueueResourceAttrs": "one entry per key of ssn.ClusterInfo.Queues",
 		"(*pkg/scheduler/plugins/proportion.proportionPlugin).OnJobSolutionStartFn":     "clone of pp.queues",
-		"(*pkg/scheduler/plugins/proportion.proportionPlugin).getTopQueues":             "subset of pp.queues",
-		"(*pkg/scheduler/plugins/proportion.proportionPlugin).getChildQueues":           "subset of pp.queues",
 		"pkg/scheduler/plugins/proportion/resource_division.getQueuesByPriority":        "partition (by priority) of the queue map passed in",
-	})
+	}
+	// the selectors of a level's queues for the fair-share recursion (identified by use): subsets of the plugin's map
+	selTop, selChild := fairShareSelectors(p)
+	for _, sel := range []*ssa.Function{selTop, selChild} {
+		if sel != nil {
+			attrWriters[funcKey(sel)] = "subset of pp.queues (queue selector of the fair-share recursion)"
+		}
+	}
+	checkMapWriters("O1", "map[QueueID]*QueueAttributes", pkgResShare+".QueueAttributes", attrWriters)
 	// recursion along child links
 	nRec := 0
 	for _, fn := range p.AllFuncs {
